@@ -24,10 +24,17 @@ Definition set_links (h : heap) (o : oid) (f : fname) (v : list oid) : heap :=
 Definition set_items (h : heap) (c : oid) (v : list oid) : heap :=
   mkHeap (kind_of h) (has_trait h) (links h) (fun c' => if Nat.eqb c' c then v else items h c').
 
+(* obj.add_trait(f, ...): x gets the trait f; [v] is the value f already has when the framework's trait_added
+   maintainers run (an earlier trait_added handler of the class may have assigned it) *)
+Definition add_trait_h (h : heap) (o : oid) (f : fname) (v : list oid) : heap :=
+  mkHeap (kind_of h) (fun o' f' => (Nat.eqb o' o && Nat.eqb f' f) || has_trait h o' f')
+         (fun o' f' => if Nat.eqb o' o && Nat.eqb f' f then v else links h o' f') (items h).
+
 Inductive dop :=
 | DStatic (o : op)
 | DSetLink (o : oid) (f : fname) (v : list oid)                       (* o.f = v  (None = []) *)
-| DSetItems (c : oid) (v removed added : list oid) (fired : bool).    (* in-place container mutation *)
+| DSetItems (c : oid) (v removed added : list oid) (fired : bool)     (* in-place container mutation *)
+| DAddTrait (o : oid) (f : fname) (v : list oid).                     (* o.add_trait(f, ...) *)
 
 Record dstate := mkD { d_heap : heap; d_st : state }.
 
@@ -81,6 +88,43 @@ Fixpoint run_notifiers (h : heap) (s : state) (on_trait : bool) (ns : list notif
       end
   end.
 
+(* _trait_added_observer.py: the maintainer on x.trait_added whose graph g starts with the named trait that was
+   just added applies g to x through a _RestrictedNamedTraitObserver: observables and objects of the new trait,
+   notifier and maintainers of the wrapped observer, NO extra graph (the trait_added maintainer is there already).
+   That is the registration plan of g at x on the new heap without its trait_added entry. *)
+Definition entry_eqb (a b : entry) : bool := obsv_eqb (fst a) (fst b) && akey_eqb (snd a) (snd b).
+Definition plan_restricted (h : heap) (k : key) (g : graph) (x : oid) : pl :=
+  let '(es, sf) := plan h k false g x in
+  (filter (fun e => negb (entry_eqb e ((x, F_TA), AMaint MTA g k))) es, sf).
+Definition walk_plan (p : pl) (rm : bool) (H : hooks) : hooks * option exn :=
+  let '(es, sf) := p in
+  let '(H1, L, e) := exec rm es H [] in
+  let e' := match e with Some x => Some x | None => if sf then Some ValueError else None end in
+  match e' with
+  | None => (H1, None)
+  | Some x => match undo rm (rev L) H1 with
+              | (H2, None) => (H2, Some x)
+              | (H2, Some x2) => (H2, Some x2)
+              end
+  end.
+Fixpoint run_ta_notifiers (h : heap) (s : state) (x : oid) (f : fname) (ns : list notifier) (H : hooks)
+         (calls : list key) : hooks * list key * option exn :=
+  match ns with
+  | [] => (H, calls, None)
+  | n :: r =>
+      match n with
+      | NUser k _ => run_ta_notifiers h s x f r H (if alive s k then calls ++ [k] else calls)
+      | NMaint MTA (G (NNamed f' nt opt) cs) k =>
+          if alive s k && Nat.eqb f' f then
+            match walk_plan (plan_restricted h k (G (NNamed f' nt opt) cs) x) false H with
+            | (H1, None) => run_ta_notifiers h s x f r H1 calls
+            | (H1, Some e) => (H1, calls, Some e)
+            end
+          else run_ta_notifiers h s x f r H calls
+      | _ => run_ta_notifiers h s x f r H calls
+      end
+  end.
+
 Definition with_hooks (s : state) (H : hooks) : state := mkState H (dead_handlers s) (dead_objs s).
 
 Definition dstep (d : dstate) (o : dop) : dstate * obs :=
@@ -99,4 +143,8 @@ Definition dstep (d : dstate) (o : dop) : dstate * obs :=
         let '(H, calls, e) := run_notifiers h' s false (st_hooks s (c, F_ITEMS)) removed added (st_hooks s) [] in
         (mkD h' (with_hooks s H), mkObs e calls)
       else (mkD h' s, mkObs None [])
+  | DAddTrait x f v =>
+      let h' := add_trait_h h x f v in
+      let '(H, calls, e) := run_ta_notifiers h' s x f (st_hooks s (x, F_TA)) (st_hooks s) [] in
+      (mkD h' (with_hooks s H), mkObs e calls)
   end.
